@@ -5,6 +5,7 @@ import (
 	"fmt"
 	"os"
 	"reflect"
+	"runtime"
 	"strings"
 	"sync"
 	"syscall"
@@ -169,6 +170,8 @@ type replyCase struct {
 	// the process ("" = UTC; decoded date-times carry it)
 	Name string `json:"name,omitempty"`
 	PZ   string `json:"process_zone,omitempty"`
+	// Procs: GOMAXPROCS for the duration of the case (0 = unchanged): the host may have one processor
+	Procs int `json:"gomaxprocs,omitempty"`
 }
 
 func cfgFor(route int, serial uint32, name ...string) hook.ClientCfg {
@@ -201,6 +204,11 @@ func decideReply(c replyCase) *rp.Fail {
 }
 
 func decideReplyInner(c replyCase) *rp.Fail {
+	if c.Procs > 0 {
+		ev.Class(fmt.Sprintf("replies/gomaxprocs-%d", c.Procs), 1)
+		old := runtime.GOMAXPROCS(c.Procs)
+		defer runtime.GOMAXPROCS(old)
+	}
 	cfg := cfgFor(c.Route, serial)
 	if c.Name != "" {
 		cfg = cfgFor(c.Route, serial, c.Name)
@@ -263,6 +271,12 @@ func genReply(t *rapid.T) replyCase {
 	n := rapid.IntRange(1, 3).Draw(t, "datagrams")
 	if c.Op == "GetDevices" {
 		n = rapid.IntRange(1, 7).Draw(t, "datagrams.discovery")
+		if rapid.IntRange(0, 3).Draw(t, "large.site") == 0 {
+			n = rapid.IntRange(8, 40).Draw(t, "datagrams.discovery.many")
+		}
+	}
+	if rapid.IntRange(0, 4).Draw(t, "procs.set") == 0 {
+		c.Procs = rapid.SampledFrom([]int{1, 1, 2, 3}).Draw(t, "procs")
 	}
 	for i := 0; i < n; i++ {
 		var b []byte
